@@ -5,10 +5,10 @@
    ([rest_program]); the TYPE part ([tys_e]: the node types are explorable within Sem.ty_fuel = 40 and
    arrays have at most 2^32 elements) is NOT implied by acceptance -- a tuple nested deeper than 40 is
    accepted -- and is a Boolean hypothesis on the output. *)
-From Coq Require Import Lia Bool.
+From Coq Require Import Lia Bool Sorted.
 From GV Require Import Base.Util Front.Scan Front.ParseExpr Check.UAst Check.Infer Check.InferProofs Check.InferSound.
 From GV Require Import Lang.Ast Lang.Wt Lang.ValTy.
-From GV Require Lang.Sem Compile.TSemSafe.
+From GV Require Lang.Sem Compile.TSemSafe Check.PermSort.
 Local Open Scope N_scope.
 
 (* ================================================================ ok_expr = types && structure *)
@@ -168,38 +168,94 @@ End Split.
 
 (* ================================================================ the structure of the checker's output *)
 
-(* no struct patterns (TSemSafe asks more of them than the checker guarantees at the AST level: the fields
-   in definition order, or no variable bound twice) *)
-Fixpoint nosp_p (p : upattern) : bool :=
+(* struct patterns name their fields in strictly increasing order (the parser sorts them:
+   Front/ParseExpr.v sort_fields).  TSemSafe asks of a struct pattern: the fields in definition order,
+   or no variable bound twice; the checker guarantees neither at the AST level *)
+Fixpoint sortedb (l : list (list N)) : bool :=
+  match l with
+  | a :: r => match r with b :: _ => name_ltb a b | [] => true end && sortedb r
+  | [] => true
+  end.
+
+Fixpoint sp_p (p : upattern) : bool :=
   match p with
-  | PTuple ps | PEnumTuple _ _ ps => forallb nosp_p ps
-  | ParseExpr.PStruct _ _ | ParseExpr.PStructIgnoreRemaining _ _ => false
+  | PTuple ps | PEnumTuple _ _ ps => forallb sp_p ps
+  | ParseExpr.PStruct _ fs | ParseExpr.PStructIgnoreRemaining _ fs =>
+      sortedb (map fst fs) && forallb (fun f => sp_p (snd f)) fs
   | _ => true
   end.
 
-Fixpoint nosp_e (e : xexpr) : bool :=
+Notation nlt := (fun a b : list N => name_ltb a b = true).
+
+Lemma sortedb_SS l : sortedb l = true -> StronglySorted nlt l.
+Proof.
+  induction l as [|a r IH]; intro H; [constructor|]. cbn [sortedb] in H. apply andb_true_iff in H. destruct H as [Hab Hr].
+  specialize (IH Hr). constructor; [exact IH|]. destruct r as [|b r]; [constructor|].
+  inversion IH as [|? ? Hs Hall]; subst. constructor; [exact Hab|].
+  eapply Forall_impl; [|exact Hall]. intros c Hbc. exact (PermSort.name_ltb_trans _ _ _ Hab Hbc).
+Qed.
+
+(* the parser's [sort_fields] establishes [sortedb] (fields with distinct names) *)
+Lemma sort_fields_sortedb {A} (l : list (list N * A)) : NoDup (map fst l) -> sortedb (map fst (sort_fields l)) = true.
+Proof.
+  intro Hnd. pose proof (PermSort.sort_fields_sorted l Hnd) as Hs. unfold PermSort.fields_sorted in Hs.
+  induction Hs as [|a r Hs IH Hall]; [reflexivity|]. cbn [map sortedb]. rewrite IH, andb_true_r.
+  destruct r as [|b r]; [reflexivity|]. inversion Hall; subst. assumption.
+Qed.
+
+Lemma SS_nodupb (intern : list N -> N) (inj : forall a b, intern a = intern b -> a = b) l :
+  StronglySorted nlt l -> TSemSafe.nodupb (map intern l) = true.
+Proof.
+  induction 1 as [|a r Hs IH Hall]; [reflexivity|]. cbn [map TSemSafe.nodupb]. rewrite IH, andb_true_r.
+  apply negb_true_iff. apply not_true_iff_false. intro He. apply existsb_exists in He. destruct He as [y [Hy E]].
+  apply N.eqb_eq in E. apply in_map_iff in Hy. destruct Hy as [b [Hb' Hb]]. rewrite <- Hb' in E. apply inj in E. subst b.
+  rewrite Forall_forall in Hall. pose proof (Hall _ Hb) as Hlt. cbv beta in Hlt. rewrite PermSort.name_ltb_irrefl in Hlt. discriminate.
+Qed.
+
+Lemma SS_subseqb (intern : list N -> N) (inj : forall a b, intern a = intern b -> a = b) :
+  forall ds fs, StronglySorted nlt ds -> StronglySorted nlt fs -> incl fs ds ->
+  TSemSafe.subseqb (map intern fs) (map intern ds) = true.
+Proof.
+  induction ds as [|d dr IH]; intros fs Hd Hf Hi.
+  - destruct fs as [|f fr]; [reflexivity|]. destruct (Hi f (or_introl eq_refl)).
+  - destruct fs as [|f fr]; [reflexivity|]. cbn [map TSemSafe.subseqb].
+    inversion Hd as [|? ? Hdr Hdall]; subst. inversion Hf as [|? ? Hfr Hfall]; subst.
+    rewrite Forall_forall in Hdall, Hfall.
+    destruct (N.eqb_spec (intern f) (intern d)) as [E|E].
+    + apply inj in E. subst d. apply IH; [exact Hdr|exact Hfr|].
+      intros x Hx. destruct (Hi x (or_intror Hx)) as [Heq|Hin]; [|exact Hin]. subst x.
+      pose proof (Hfall _ Hx) as Hlt. cbv beta in Hlt. rewrite PermSort.name_ltb_irrefl in Hlt. discriminate.
+    + change (intern f :: map intern fr) with (map intern (f :: fr)). apply IH; [exact Hdr|exact Hf|].
+      assert (Hfd : In f dr). { destruct (Hi f (or_introl eq_refl)) as [Heq|Hin]; [subst; congruence|exact Hin]. }
+      intros x [Heq|Hx]; [subst x; exact Hfd|].
+      destruct (Hi x (or_intror Hx)) as [Heq|Hin]; [|exact Hin]. subst x.
+      pose proof (Hdall _ Hfd) as H1. pose proof (Hfall _ Hx) as H2. cbv beta in H1, H2.
+      rewrite (PermSort.name_ltb_asym _ _ H1) in H2. discriminate.
+Qed.
+
+Fixpoint sp_e (e : xexpr) : bool :=
   match e with
-  | XArrayLiteral es | XTupleLiteral es | XFnCall _ es | XEnumLiteral _ _ (Some es) => forallb nosp_e es
+  | XArrayLiteral es | XTupleLiteral es | XFnCall _ es | XEnumLiteral _ _ (Some es) => forallb sp_e es
   | XArrayRepeatLiteral e _ | XTupleAccess e _ | XStructAccess e _ | XUnaryOp _ e | XCast _ e
-  | XArrayRepeatLiteralConst e _ => nosp_e e
-  | XArrayAccess a i => nosp_e a && nosp_e i
-  | XStructLiteral _ fs => forallb (fun f => nosp_e (snd f)) fs
-  | XMatch e arms => nosp_e e && forallb (fun a => nosp_p (fst a) && nosp_e (snd a)) arms
-  | XOp _ l r => nosp_e l && nosp_e r
-  | XBlock b => forallb nosp_s b
-  | XIf c a b => nosp_e c && nosp_e a && nosp_e b
-  | XJoin es => forallb nosp_e es
+  | XArrayRepeatLiteralConst e _ => sp_e e
+  | XArrayAccess a i => sp_e a && sp_e i
+  | XStructLiteral _ fs => forallb (fun f => sp_e (snd f)) fs
+  | XMatch e arms => sp_e e && forallb (fun a => sp_p (fst a) && sp_e (snd a)) arms
+  | XOp _ l r => sp_e l && sp_e r
+  | XBlock b => forallb sp_s b
+  | XIf c a b => sp_e c && sp_e a && sp_e b
+  | XJoin es => forallb sp_e es
   | _ => true
   end
-with nosp_s (s : xstmt) : bool :=
+with sp_s (s : xstmt) : bool :=
   match s with
-  | XSLet p _ e => nosp_p p && nosp_e e
-  | XSLetMut _ _ e | XSExpr e => nosp_e e
-  | XSVarAssign _ accs e => forallb nosp_a accs && nosp_e e
-  | XSForEach p e body => nosp_p p && nosp_e e && forallb nosp_s body
+  | XSLet p _ e => sp_p p && sp_e e
+  | XSLetMut _ _ e | XSExpr e => sp_e e
+  | XSVarAssign _ accs e => forallb sp_a accs && sp_e e
+  | XSForEach p e body => sp_p p && sp_e e && forallb sp_s body
   end
-with nosp_a (a : xaccessor) : bool :=
-  match a with XAArray i => nosp_e i | _ => true end.
+with sp_a (a : xaccessor) : bool :=
+  match a with XAArray i => sp_e i | _ => true end.
 
 Section Rest.
 Variable intern : list N -> N.
@@ -386,8 +442,51 @@ Proof.
 Qed.
 
 (* patterns *)
-Lemma fields_loop_okpat D fs : Forall (fun p => forall g ty tp g', nosp_p p = true -> check_pattern D g p ty = COk (tp, g') -> TSemSafe.ok_pat P' (xp tp) = true) fs ->
-  forallb nosp_p fs = true ->
+Hypothesis intern_inj : forall a b, intern a = intern b -> a = b.
+(* P' lists the struct definitions of D (interned), and their fields are sorted by name *)
+Definition structs_link (D : defs) : Prop := forall name def, assocL name (d_structs D) = Some def ->
+  Ast.assocN (intern name) (Ast.p_structs P') = Some (map (fun ft => (intern (fst ft), export_ty intern (snd ft))) def) /\
+  sortedb (map fst def) = true.
+
+Lemma map_fst_intern {A B} (g : A -> B) (l : list (list N * A)) :
+  map fst (map (fun x => (intern (fst x), g (snd x))) l) = map intern (map fst l).
+Proof. rewrite !map_map. reflexivity. Qed.
+
+Lemma sfields_loop_okpat D (sdef : list (list N * cty)) fs :
+  Forall (fun f : list N * upattern => forall g ty tp g', sp_p (snd f) = true -> check_pattern D g (snd f) ty = COk (tp, g') -> TSemSafe.ok_pat P' (xp tp) = true) fs ->
+  forallb (fun f => sp_p (snd f)) fs = true ->
+  forall seen g r g',
+    (fix go (seen : list (list N)) (fs : list (list N * upattern)) (g : cenv) : cres (list (list N * tpattern) * cenv) :=
+       match fs with
+       | [] => COk ([], g)
+       | (field_name, field_value) :: fr =>
+           if memL field_name seen then CErr E_PatternDoesNotMatchType else
+           match assocL field_name sdef with
+           | Some field_type =>
+               do r1 <- check_pattern D g field_value field_type;
+               do r2 <- go (field_name :: seen) fr (snd r1);
+               COk ((field_name, fst r1) :: fst r2, snd r2)
+           | None => CErr E_UnknownStructField
+           end
+       end) seen fs g = COk (r, g') ->
+  map fst r = map fst fs /\ incl (map fst fs) (map fst sdef) /\
+  forallb (fun f => TSemSafe.ok_pat P' (snd f)) (map (fun f => (intern (fst f), xp (snd f))) r) = true.
+Proof.
+  induction 1 as [|[fname q] fs Hq Hfs IH]; intros Hn seen g r g' H.
+  - inversion H; subst. split; [reflexivity|]. split; [intros x []|reflexivity].
+  - cbn [forallb snd] in Hn. apply andb_true_iff in Hn. destruct Hn as [Hn1 Hn2].
+    destruct (memL fname seen); [discriminate|].
+    destruct (assocL fname sdef) as [ft|] eqn:Ea; [|discriminate].
+    apply cbind_ok in H. destruct H as [[p1 g1] [H1 H]]. apply cbind_ok in H. destruct H as [[r2 g2] [H2 H]].
+    cbn [fst snd] in *. inversion H; subst; clear H.
+    destruct (IH Hn2 _ _ _ _ H2) as [E1 [E2 E3]].
+    split; [cbn [map fst]; rewrite E1; reflexivity|]. split.
+    + intros x [Hx|Hx]; [|exact (E2 _ Hx)]. subst x. apply assocL_In in Ea. apply in_map_iff. exists (fname, ft). split; [reflexivity|exact Ea].
+    + cbn [map forallb snd]. rewrite (Hq _ _ _ _ Hn1 H1). exact E3.
+Qed.
+
+Lemma fields_loop_okpat D fs : Forall (fun p => forall g ty tp g', sp_p p = true -> check_pattern D g p ty = COk (tp, g') -> TSemSafe.ok_pat P' (xp tp) = true) fs ->
+  forallb sp_p fs = true ->
   forall ts g r g',
     (fix go (fs : list upattern) (ts : list cty) (g : cenv) : cres (list tpattern * cenv) :=
        match fs, ts with
@@ -405,7 +504,7 @@ Proof.
     cbn [fst snd] in *. inversion H; subst; clear H. cbn [map forallb]. rewrite (Hq _ _ _ _ Hn1 H1). exact (IH Hn2 _ _ _ _ H2).
 Qed.
 
-Lemma check_pattern_okpat D : forall p g ty tp g', nosp_p p = true -> check_pattern D g p ty = COk (tp, g') ->
+Lemma check_pattern_okpat D (HD : structs_link D) : forall p g ty tp g', sp_p p = true -> check_pattern D g p ty = COk (tp, g') ->
   TSemSafe.ok_pat P' (xp tp) = true.
 Proof.
   induction p using upattern_ind'; intros g ty tp g' Hn HH; try discriminate Hn; cbn [check_pattern] in HH.
@@ -414,12 +513,38 @@ Proof.
   - destruct ty; inversion HH; reflexivity.
   - inv_all. reflexivity.
   - inv_all. reflexivity.
-  - cbn [nosp_p] in Hn. apply cbind_ok in HH. destruct HH as [fts [_ HH]].
+  - cbn [sp_p] in Hn. apply cbind_ok in HH. destruct HH as [fts [_ HH]].
     destruct (negb _); [discriminate|]. apply cbind_ok in HH. destruct HH as [[r g2] [Hl HH]]. inversion HH; subst; clear HH.
     cbn [fst export_pattern TSemSafe.ok_pat]. exact (fields_loop_okpat D ps H Hn _ _ _ _ Hl).
+  - cbn [sp_p] in Hn. apply andb_true_iff in Hn. destruct Hn as [Hso Hn].
+    apply cbind_ok in HH. destruct HH as [sdn [_ HH]].
+    destruct (negb _); [discriminate|].
+    destruct (assocL n (d_structs D)) as [sdef|] eqn:Ea; [|discriminate].
+    apply cbind_ok in HH. destruct HH as [[r g2] [Hl HH]].
+    match type of HH with (if ?c then _ else _) = _ => destruct c; [discriminate|] end.
+    inversion HH; subst; clear HH.
+    destruct (HD _ _ Ea) as [Hlink Hsd].
+    destruct (sfields_loop_okpat D sdef _ H Hn _ _ _ _ Hl) as [Hnames [Hincl Hok]].
+    apply sortedb_SS in Hso. apply sortedb_SS in Hsd.
+    cbn [fst export_pattern]. cbn [TSemSafe.ok_pat]. rewrite Hlink, !map_fst_intern, Hnames.
+    rewrite (SS_nodupb intern intern_inj _ Hsd), (SS_nodupb intern intern_inj _ Hso),
+          (SS_subseqb intern intern_inj _ _ Hsd Hso Hincl), orb_true_r. cbn [andb]. exact Hok.
+  - cbn [sp_p] in Hn. apply andb_true_iff in Hn. destruct Hn as [Hso Hn].
+    apply cbind_ok in HH. destruct HH as [sdn [_ HH]].
+    destruct (negb _); [discriminate|].
+    destruct (assocL n (d_structs D)) as [sdef|] eqn:Ea; [|discriminate].
+    apply cbind_ok in HH. destruct HH as [[r g2] [Hl HH]].
+    match type of HH with (if ?c then _ else _) = _ => destruct c; [discriminate|] end.
+    inversion HH; subst; clear HH.
+    destruct (HD _ _ Ea) as [Hlink Hsd].
+    destruct (sfields_loop_okpat D sdef _ H Hn _ _ _ _ Hl) as [Hnames [Hincl Hok]].
+    apply sortedb_SS in Hso. apply sortedb_SS in Hsd.
+    cbn [fst export_pattern]. cbn [TSemSafe.ok_pat]. rewrite Hlink, !map_fst_intern, Hnames.
+    rewrite (SS_nodupb intern intern_inj _ Hsd), (SS_nodupb intern intern_inj _ Hso),
+          (SS_subseqb intern intern_inj _ _ Hsd Hso Hincl), orb_true_r. cbn [andb]. exact Hok.
   - destruct ty; try discriminate HH. destruct (negb _); [discriminate|]. destruct (assocL e (d_enums D)); [|discriminate].
     destruct (assocL v l) as [[?|]|]; try discriminate HH. inversion HH; reflexivity.
-  - cbn [nosp_p] in Hn. destruct ty; try discriminate HH. destruct (negb _); [discriminate|]. destruct (assocL e (d_enums D)); [|discriminate].
+  - cbn [sp_p] in Hn. destruct ty; try discriminate HH. destruct (negb _); [discriminate|]. destruct (assocL e (d_enums D)); [|discriminate].
     destruct (assocL v l) as [[pts|]|]; try discriminate HH. destruct (negb _); [discriminate|].
     apply cbind_ok in HH. destruct HH as [[r g2] [Hl HH]]. inversion HH; subst; clear HH.
     cbn [fst export_pattern TSemSafe.ok_pat]. exact (fields_loop_okpat D ps H Hn _ _ _ _ Hl).
@@ -436,6 +561,8 @@ Variable intern : list N -> N.
 Variable en : list (list N * list (list N * option (list cty))).
 Variable P' : program.
 Variable D : defs.
+Hypothesis intern_inj : forall a b, intern a = intern b -> a = b.
+Hypothesis D_link : structs_link intern P' D.
 Notation xe := (export_expr intern en).
 Notation xs := (export_stmt intern en).
 Notation xa := (export_accessor intern en).
@@ -448,11 +575,11 @@ Ltac refold H :=
        (Infer.check_fn intern) (Infer.check_stmt intern) in H.
 
 Definition Re (f : nat) : Prop := forall st e e' st',
-  nosp_e e = true -> check_expr f D st e = COk (e', st') -> rest_e P' (xe e') = true.
+  sp_e e = true -> check_expr f D st e = COk (e', st') -> rest_e P' (xe e') = true.
 Definition Rs (f : nat) : Prop := forall st s s' st',
-  nosp_s s = true -> check_stmt f D st s = COk (s', st') -> rest_s P' (xs s') = true.
+  sp_s s = true -> check_stmt f D st s = COk (s', st') -> rest_s P' (xs s') = true.
 
-Lemma Re_list f : Re f -> forall es st es' st', forallb nosp_e es = true ->
+Lemma Re_list f : Re f -> forall es st es' st', forallb sp_e es = true ->
   mapM_st (check_expr f D) st es = COk (es', st') -> forallb (rest_e P') (map xe es') = true.
 Proof.
   intros HR. induction es as [|e es IH]; intros st es' st' Hn H; cbn [mapM_st] in H.
@@ -462,7 +589,7 @@ Proof.
     cbn [fst snd] in *. inversion H; subst; clear H. cbn [map forallb]. rewrite (HR _ _ _ _ Hn1 H1). exact (IH _ _ _ Hn2 H2).
 Qed.
 
-Lemma Rs_list f : Rs f -> forall b st b' st', forallb nosp_s b = true ->
+Lemma Rs_list f : Rs f -> forall b st b' st', forallb sp_s b = true ->
   mapM_st (check_stmt f D) st b = COk (b', st') -> forallb (rest_s P') (map xs b') = true.
 Proof.
   intros HR. induction b as [|s b IH]; intros st b' st' Hn H; cbn [mapM_st] in H.
@@ -479,7 +606,7 @@ Proof.
   intros x x' _ Hx Hrx. exact (check_type_re intern en P' _ _ _ _ Hx Hrx).
 Qed.
 
-Lemma accs_re f : Re f -> forall accs st t tas t' st', forallb nosp_a accs = true ->
+Lemma accs_re f : Re f -> forall accs st t tas t' st', forallb sp_a accs = true ->
   accs_loop (check_expr f D) f D st t accs = COk (tas, t', st') -> forallb (rest_a P') (map xa tas) = true.
 Proof.
   intros HR. induction accs as [|a accs IH]; intros st t tas t' st' Hn H; cbn [accs_loop] in H.
@@ -488,7 +615,7 @@ Proof.
     apply cbind_ok in H. destruct H as [[[ta t1] st1] [H1 H]]. cbv beta iota in H.
     apply cbind_ok in H. destruct H as [[[tas2 tf] st2] [H2 H]]. cbv beta iota in H. inversion H; subst; clear H.
     cbn [map forallb]. rewrite (IH _ _ _ _ _ Hn2 H2), andb_true_r.
-    destruct a; cbn [nosp_a] in Hn1.
+    destruct a; cbn [sp_a] in Hn1.
     + apply cbind_ok in H1. destruct H1 as [el [_ H1]]. apply cbind_ok in H1. destruct H1 as [[i1 sti] [Hi H1]].
       cbn [fst snd] in H1. apply cbind_ok in H1. destruct H1 as [i2 [Hc H1]]. inversion H1; subst; clear H1.
       pose proof (HR _ _ _ _ Hn1 Hi) as Hri.
@@ -499,7 +626,7 @@ Proof.
       destruct (assocL field l); inversion H1; reflexivity.
 Qed.
 
-Lemma struct_lit_re f sd : Re f -> forall fields seen st r st', forallb (fun fx : list N * xexpr => nosp_e (snd fx)) fields = true ->
+Lemma struct_lit_re f sd : Re f -> forall fields seen st r st', forallb (fun fx : list N * xexpr => sp_e (snd fx)) fields = true ->
   struct_lit_loop (check_expr f D) f sd seen st fields = COk (r, st') ->
   forallb (fun fe : N * expr => rest_e P' (snd fe)) (map (fun fx : list N * texpr => (intern (fst fx), xe (snd fx))) r) = true.
 Proof.
@@ -524,7 +651,7 @@ Proof.
   assert (Hfn : (f <= n)%nat) by lia.
   destruct (IH f Hfn) as [HE HS].
   split.
-  - intros st e e' st' Hn H. destruct e; cbn [nosp_e] in Hn; cbn [Infer.check_expr] in H; refold H; try discriminate H.
+  - intros st e e' st' Hn H. destruct e; cbn [sp_e] in Hn; cbn [Infer.check_expr] in H; refold H; try discriminate H.
     + inversion H; reflexivity.
     + inversion H; reflexivity.
     + inversion H; reflexivity.
@@ -586,7 +713,7 @@ Proof.
             cbn [fst snd] in *. inversion Hrc; subst; clear Hrc.
             apply cbind_ok in Hone. destruct Hone as [[tp1 g1] [Hp Hone]]. apply cbind_ok in Hone. destruct Hone as [[tx1 st5] [Hx Hone]].
             cbn [fst snd] in *. inversion Hone; subst; clear Hone.
-            cbn [map forallb fst snd]. rewrite (check_pattern_okpat intern en P' D _ _ _ _ _ Hnp Hp), (HE _ _ _ _ Hnx Hx). cbn [andb].
+            cbn [map forallb fst snd]. rewrite (check_pattern_okpat intern en P' intern_inj D D_link _ _ _ _ _ Hnp Hp), (HE _ _ _ _ Hnx Hx). cbn [andb].
             exact (IHa _ _ _ Hrest Hna). }
         destruct rc as [|[p0 first] rc']; [discriminate|].
         apply cbind_ok in Hr. destruct Hr as [cl [Hm Hr]]. apply cbind_ok in Hr. destruct Hr as [u0 [_ Hr]]. inversion Hr; subst; clear Hr.
@@ -639,7 +766,7 @@ Proof.
       apply cbind_ok in H. destruct H as [ty' [_ H]]. bind_e H x1 st1 Hx. apply cbind_ok in H. destruct H as [? [_ H]].
       apply cbind_ok in H. destruct H as [? [_ H]]. inversion H; subst. cbn [export_expr rest_e]. exact (HE _ _ _ _ Hn Hx).
     + (* range *) destruct (_ || _); inversion H; reflexivity.
-  - intros st s s' st' Hn H. destruct s; cbn [nosp_s] in Hn; cbn [Infer.check_stmt] in H; refold H.
+  - intros st s s' st' Hn H. destruct s; cbn [sp_s] in Hn; cbn [Infer.check_stmt] in H; refold H.
     + (* let *)
       splitn. bind_e H e1 st1 He. apply cbind_ok in H. destruct H as [e2 [Hann H]].
       assert (Hr1 : rest_e P' (xe e1) = true) by (eapply HE; [|exact He]; assumption).
@@ -648,7 +775,7 @@ Proof.
                      |inversion Hann; subst; exact Hr1]. }
       apply cbind_ok in H. destruct H as [[p1 g1] [Hp H]]. apply cbind_ok in H. destruct H as [u0 [_ H]]. cbn [fst snd] in H. inversion H; subst.
       change (xs (TSLet p1 e2)) with (St (SLet (xp p1) (xe e2)) m0).
-      assert (Hop : TSemSafe.ok_pat P' (xp p1) = true) by (eapply (check_pattern_okpat intern en P' D); [|exact Hp]; assumption).
+      assert (Hop : TSemSafe.ok_pat P' (xp p1) = true) by (eapply (check_pattern_okpat intern en P' intern_inj D D_link); [|exact Hp]; assumption).
       rewrite rest_s_let, Hop, Hr2. reflexivity.
     + (* let mut *)
       bind_e H e1 st1 He. apply cbind_ok in H. destruct H as [e2 [Hann H]].
@@ -675,7 +802,7 @@ Proof.
       destruct f as [|f1]; [discriminate|]. cbn [Infer.check_stmts] in Hb. refold Hb.
       assert (HS' : Rs f1) by (apply (IH f1); lia).
       change (xs (TSForEach p1 a1 body1)) with (St (SFor (xp p1) (xe a1) (map xs body1)) m0).
-      assert (Hop : TSemSafe.ok_pat P' (xp p1) = true) by (eapply (check_pattern_okpat intern en P' D); [|exact Hp]; assumption).
+      assert (Hop : TSemSafe.ok_pat P' (xp p1) = true) by (eapply (check_pattern_okpat intern en P' intern_inj D D_link); [|exact Hp]; assumption).
       assert (Hra : rest_e P' (xe a1) = true) by (eapply HE; [|exact Ha]; assumption).
       assert (Hrb : forallb (rest_s P') (map xs body1) = true) by (eapply (Rs_list f1 HS'); [|exact Hb]; assumption).
       rewrite rest_s_for, Hop, Hra, Hrb. reflexivity.
@@ -694,3 +821,215 @@ Print Assumptions constrain_type_re.
 Print Assumptions coc_u_deep_ty.
 Print Assumptions check_pattern_okpat.
 Print Assumptions rest_all.
+
+(* ================================================================ whole programs *)
+
+Definition sp_program (P : uprogram) : bool := forallb (fun fd => forallb sp_s (uf_body fd)) (up_fns P).
+(* the Boolean on the OUTPUT: every node type of every function body is [TSemSafe.node_ok] *)
+Definition tys_program (P' : program) : bool := forallb (fun d => forallb (tys_s P') (fn_body d)) (p_fns P').
+(* the struct definitions list their fields in strictly increasing order (the parser sorts them) *)
+Definition structs_sorted (P : uprogram) : bool := forallb (fun sd => sortedb (map fst (us_fields sd))) (up_structs P).
+Definition main_declared (P : uprogram) : bool := memL (up_main P) (map uf_name (up_fns P)).
+
+Lemma main_declared_In P : main_declared P = true <-> In (up_main P) (map uf_name (up_fns P)).
+Proof.
+  unfold main_declared, memL. rewrite existsb_exists. split.
+  - intros [x [Hx He]]. apply list_eqb_eq in He. subst x. exact Hx.
+  - intro H. exists (up_main P). split; [exact H|apply list_eqb_refl].
+Qed.
+
+Lemma struct_def_names sn en sd r : check_struct_def sn en sd = COk r -> map fst (snd r) = map fst (us_fields sd).
+Proof.
+  unfold check_struct_def. intro H. apply cbind_ok in H. destruct H as [fields [Hf H]]. inversion H; subst; clear H. cbn [snd].
+  revert Hf. generalize (@nil (list N)). generalize fields. clear fields.
+  induction (us_fields sd) as [|[n ty] fs IH]; intros fields0 seen H0.
+  - inversion H0; subst. reflexivity.
+  - destruct (memL n seen); [discriminate|]. apply cbind_ok in H0. destruct H0 as [ty' [_ H0]].
+    apply cbind_ok in H0. destruct H0 as [r' [Hr H0]]. inversion H0; subst; clear H0.
+    cbn [map fst]. rewrite (IH _ _ Hr). reflexivity.
+Qed.
+
+Section SafeProgram.
+Variable intern : list N -> N.
+Hypothesis intern_inj : forall a b, intern a = intern b -> a = b.
+
+Ltac refold H :=
+  fold (Infer.check_expr intern) (Infer.check_stmts intern) (Infer.check_block intern)
+       (Infer.check_fn intern) (Infer.check_stmt intern) in H.
+
+(* UntypedFnDef::type_check: the typed body has the structure *)
+Lemma fn_rest en P' D (HD : structs_link intern P' D) f st fd tfd st' : forallb sp_s (uf_body fd) = true ->
+  check_fn intern f D st fd = COk (tfd, st') ->
+  forallb (rest_s P') (map (export_stmt intern en) (tf_body tfd)) = true.
+Proof.
+  intros Hn H. destruct f as [|f]; [discriminate|]. cbn [Infer.check_fn] in H. refold H.
+  destruct (memL (uf_name fd) (st_checking st)); [discriminate|].
+  apply cbind_ok in H. destruct H as [[tps g1] [_ H]]. cbn [fst snd] in H.
+  apply cbind_ok in H. destruct H as [[[body ty] st1] [Hblk H]]. cbv beta iota zeta in H.
+  apply cbind_ok in H. destruct H as [ret_ty [_ H]]. apply cbind_ok in H. destruct H as [body' [Hlast H]].
+  inversion H; subst; clear H. cbn [tf_body].
+  destruct f as [|f0]; [discriminate|]. cbn [Infer.check_block] in Hblk. refold Hblk.
+  apply cbind_ok in Hblk. destruct Hblk as [[b1 st2] [Hm Hblk]]. cbn [fst snd] in Hblk. assert (b1 = body /\ st2 = st1) as [-> ->] by (split; congruence). clear Hblk.
+  pose proof (Rs_list intern en P' D f0 (proj2 (rest_all intern en P' D intern_inj HD f0)) _ _ _ _ Hn Hm) as Hr.
+  destruct (last (map Some body) None) as [[]|].
+  all: try (destruct (negb _); [discriminate|]; inversion Hlast; subst; exact Hr).
+  eapply (map_last_rs intern en P'); [exact Hlast| |exact Hr].
+  intros x x' Hx Hrx. exact (check_type_re intern en P' _ _ _ _ Hx Hrx).
+Qed.
+
+Theorem check_safe_fragment fuel P P' :
+  in_sound_fragment P = true -> structs_sorted P = true -> sp_program P = true -> main_declared P = true ->
+  (fuel <= S Wt.wt_fuel)%nat -> check_program intern fuel P = COk P' -> tys_program P' = true ->
+  TSemSafe.safe_program_ok P' = true.
+Proof.
+  intros Hfrag Hsorted Hnosp Hmain Hfuel H Htys.
+  pose proof (check_sound_fragment intern intern_inj fuel P P' Hfrag Hfuel H) as Hwt.
+  unfold in_sound_fragment in Hfrag.
+  repeat (apply andb_true_iff in Hfrag; let Hx := fresh "Hx" in destruct Hfrag as [Hfrag Hx]).
+  rename Hx into Hfragf, Hx0 into Hnd, Hx1 into Hce, Hx2 into Hcs, Hx3 into Hnde, Hx4 into Hnds, Hx5 into Hcc, Hfrag into Hndc.
+  apply nodupL_NoDup in Hnd. apply nodupL_NoDup in Hnds.
+  unfold check_program in H. apply cbind_ok in H. destruct H as [T [HT H]]. inversion H; subst; clear H.
+  unfold check_program_t in HT.
+  apply cbind_ok in HT. destruct HT as [consts [Hconsts HT]].
+  apply (check_consts_spec _ _ _ Hcc) in Hconsts. cbn [rev app] in Hconsts. subst consts.
+  apply cbind_ok in HT. destruct HT as [structs [Hstructs HT]].
+  apply cbind_ok in HT. destruct HT as [enums [Henums HT]].
+  apply cbind_ok in HT. destruct HT as [u0 [_ HT]].
+  cbv zeta in HT.
+  match type of HT with context [check_fn intern fuel ?D0] => set (D := D0) in * end.
+  apply cbind_ok in HT. destruct HT as [stf [Hloop HT]].
+  match type of HT with (if ?c then _ else _) = _ => destruct c eqn:Eun; [discriminate|] end.
+  inversion HT; subst; clear HT.
+  set (P' := export_program intern (mkTProgram (map const_t (up_consts P)) structs enums (st_typed stf) (up_main P))) in *.
+  assert (Hsn : map fst structs = map us_name (up_structs P)).
+  { eapply mapM_names; [|exact Hstructs]. intros a r Hr. unfold check_struct_def in Hr.
+    apply cbind_ok in Hr. destruct Hr as [? [_ Hr]]. inversion Hr. reflexivity. }
+  assert (HD : structs_link intern P' D).
+  { intros name def Ha. split.
+    - cbn [P' export_program Ast.p_structs tp_structs].
+      rewrite (assocN_map_intern intern intern_inj). cbn [D d_structs] in Ha. rewrite (assocL_sort structs name def); [reflexivity| |exact Ha].
+      rewrite Hsn. exact Hnds.
+    - apply assocL_In in Ha. cbn [D d_structs] in Ha.
+      destruct (mapM_In _ _ _ _ Hstructs Ha) as [sd [Hsd Hcd]]. apply struct_def_names in Hcd. cbn [snd] in Hcd. rewrite Hcd.
+      unfold structs_sorted in Hsorted. rewrite forallb_forall in Hsorted. exact (Hsorted _ Hsd). }
+  assert (Hfind : forall fd, In fd (up_fns P) -> find (fun d => list_eqb (uf_name d) (uf_name fd)) (d_fns D) = Some fd).
+  { intros fd Hin. apply (find_by_name' _ Hnd _ Hin). }
+  assert (Hnospf : forall fd, In fd (d_fns D) -> forallb sp_s (uf_body fd) = true).
+  { intros fd Hin. unfold sp_program in Hnosp. rewrite forallb_forall in Hnosp. apply Hnosp. exact Hin. }
+  (* the entries of `typed`: static signature (for the name), and the structure of the body *)
+  set (Q := fun nd : list N * tfndef => Qs D nd /\ forallb (rest_s P') (map (export_stmt intern enums) (tf_body (snd nd))) = true).
+  assert (HQins : forall f st ufd r id (k : unit), (f < S fuel)%nat -> Forall Q (st_typed st) ->
+            find (fun d => list_eqb (uf_name d) id) (d_fns D) = Some ufd ->
+            check_fn intern f D st ufd = COk r -> Forall Q (st_typed (snd r)) -> Forall Q ((id, fst r) :: st_typed (snd r))).
+  { intros f st ufd [tfd st'] id _ _ _ Hfd Hc HQ'. constructor; [|exact HQ']. split.
+    - exact (Qs_ins intern D f st ufd _ id Hfd Hc).
+    - cbn [fst snd]. pose proof (find_some _ _ Hfd) as [Hin _]. exact (fn_rest enums P' D HD f st ufd tfd st' (Hnospf _ Hin) Hc). }
+  assert (HQ : Forall Q (st_typed stf)).
+  { eapply (pub_loop_gen intern D fuel (Forall Q) (up_fns P)); [|intros fd Hin; exact Hin|exact Hloop|constructor].
+    intros st fd [tfd st1] Hin Hc HJ. cbn [fst snd]. constructor.
+    - split; [exact (Qs_ins intern D fuel st fd _ (uf_name fd) (Hfind _ Hin) Hc)|].
+      cbn [snd]. exact (fn_rest enums P' D HD fuel st fd tfd st1 (Hnospf _ Hin) Hc).
+    - apply Forall_filter'.
+      exact (proj2 (proj2 (proj2 (proj2 (check_typed_rel intern D unit (fun _ l => Forall Q l) (S fuel) HQins fuel ltac:(lia))))) _ _ _ Hc tt HJ). }
+  (* every function has an entry *)
+  assert (Hkey : forall fd, In fd (up_fns P) -> has_key (uf_name fd) (st_typed stf)).
+  { intros fd Hin. destruct (uf_pub fd) eqn:Epub.
+    - exact (proj2 (pub_loop_keys intern D fuel _ _ _ Hloop) fd Hin Epub).
+    - rewrite <- not_true_iff_false in Eun. rewrite existsb_exists in Eun.
+      destruct (assocL (uf_name fd) (st_typed stf)) as [tfd|] eqn:Ea.
+      + exists tfd. apply assocL_In. exact Ea.
+      + exfalso. apply Eun. exists fd. split; [exact Hin|]. rewrite Epub, Ea. reflexivity. }
+  unfold TSemSafe.safe_program_ok. rewrite Hwt. cbn [andb].
+  repeat (apply andb_true_iff; split).
+  - (* fns_ok *)
+    unfold TSemSafe.fns_ok. apply forallb_forall. intros d Hd.
+    unfold tys_program in Htys. rewrite forallb_forall in Htys. pose proof (Htys d Hd) as Htd.
+    cbn [P' export_program p_fns tp_fns tp_enums] in Hd. apply in_map_iff in Hd. destruct Hd as [nd [<- Hnd']].
+    apply (proj1 (In_sort_fields _ _)) in Hnd'. rewrite Forall_forall in HQ. destruct (HQ _ Hnd') as [_ Hrest].
+    cbn [export_fn fn_body] in *. apply forallb_forall. intros s Hs.
+    rewrite forallb_forall in Htd, Hrest. apply ok_split_s; auto.
+  - (* consts_ok *)
+    unfold TSemSafe.consts_ok. cbn [P' export_program p_consts tp_consts tp_enums]. apply forallb_forall. intros c' Hc'.
+    apply in_map_iff in Hc'. destruct Hc' as [nc [<- Hnc]]. apply in_map_iff in Hnc. destruct Hnc as [c [<- Hin]].
+    rewrite forallb_forall in Hcc. pose proof (Hcc _ Hin) as Hc. unfold const_frag in Hc. unfold const_t. cbn [snd fst].
+    destruct (uc_ty c) as [|tu|ts| | | | |]; try discriminate Hc;
+      destruct (uc_value c) as [| |n tv|z tv| | | | | |]; try discriminate Hc;
+      cbn [export_expr export_ty TSemSafe.const_ok]; try reflexivity; apply N.eqb_refl.
+  - (* has_main *)
+    unfold TSemSafe.has_main. unfold main_declared, memL in Hmain. apply existsb_exists in Hmain.
+    destruct Hmain as [nm [Hnm Heq]]. apply list_eqb_eq in Heq. apply in_map_iff in Hnm. destruct Hnm as [fd [Hfdn Hfd]].
+    destruct (Hkey _ Hfd) as [tfd Htfd]. rewrite Forall_forall in HQ. destruct (HQ _ Htfd) as [[ufd [_ [_ [_ Hn0]]]] _].
+    cbn [fst snd] in Hn0.
+    unfold find_fn. cbn [P' export_program p_fns p_main tp_fns tp_main tp_enums].
+    destruct (find_exists (fun d => fn_name d =? intern (up_main P))
+                (map (fun nd => export_fn intern enums (snd nd)) (sort_fields (st_typed stf)))
+                (export_fn intern enums tfd)) as [d Hd].
+    { apply in_map_iff. exists (uf_name fd, tfd). split; [reflexivity|]. apply (proj2 (In_sort_fields _ _)). exact Htfd. }
+    { cbn [export_fn fn_name]. rewrite Hn0, Hfdn, Heq. apply N.eqb_refl. }
+    rewrite Hd. reflexivity.
+Qed.
+
+(* C05, first clause, for the fragment: the typed program the checker returns does not crash the
+   lowering, for every fuel and all arguments of the parameter sizes, and the result has the size of
+   the return type *)
+Theorem accepted_programs_do_not_crash_the_compiler fuel P P' :
+  in_sound_fragment P = true -> structs_sorted P = true -> sp_program P = true -> main_declared P = true ->
+  (fuel <= S Wt.wt_fuel)%nat -> check_program intern fuel P = COk P' -> tys_program P' = true ->
+  forall tfuel args, exists fd, find_fn P' (p_main P') = Some fd /\
+    (Forall2 (fun p a => length a = Lower.szn P' (snd p)) (fn_params fd) args ->
+     match TSem.tsem_program tfuel P' args with
+     | Crash => False
+     | OutOfFuel => True
+     | Ok (_, outs) => length outs = Lower.szn P' (fn_ret fd)
+     end).
+Proof.
+  intros H1 H1' H2 H3 H4 H5 H6 tfuel args.
+  pose proof (check_safe_fragment fuel P P' H1 H1' H2 H3 H4 H5 H6) as Hs.
+  exact (TSemSafe.tsem_program_safe_ok tfuel P' args Hs).
+Qed.
+
+End SafeProgram.
+
+Print Assumptions check_safe_fragment.
+Print Assumptions accepted_programs_do_not_crash_the_compiler.
+
+(* ---------------------------------------------------------------- the hypotheses are satisfiable *)
+
+From GV Require Check.InferExamples.
+Module SafeExamples.
+Import InferExamples. Import String. Local Open Scope string_scope. Local Open Scope N_scope.
+
+Definition all_hyps (P : uprogram) : bool :=
+  in_sound_fragment P && structs_sorted P && sp_program P && main_declared P &&
+  match check_program ex_intern 50 P with COk P' => tys_program P' | _ => false end.
+
+(* calls, a struct literal + access, an enum literal + match with enum patterns, a const, all suffixed *)
+Definition P_all := mkUProgram [mkUConst (nm "K") u8 (CENumUnsigned 5 U8)] [s_P] [e_E]
+  [main_fn [px "x" u8] u8
+     [XSLet (pid "p") None (XStructLiteral (nm "P") [(nm "a", XFnCall (nm "inc") [id_ "x"]); (nm "b", XTrue)]);
+      XSLet (ParseExpr.PStruct (nm "P") [(nm "a", pid "q"); (nm "b", pid "q")]) None (id_ "p");
+      XSLet (ParseExpr.PStructIgnoreRemaining (nm "P") [(nm "b", pid "_")]) None (id_ "p");
+      XSLet (pid "e") None (XEnumLiteral (nm "E") (nm "B") (Some [XStructAccess (id_ "p") (nm "a")]));
+      XSExpr (XMatch (id_ "e") [(ParseExpr.PEnumUnit (nm "E") (nm "A"), id_ "K");
+                               (ParseExpr.PEnumTuple (nm "E") (nm "B") [pid "v"], id_ "v")])];
+   mkUFn false (nm "inc") u8 [px "a" u8] [XSExpr (XOp BAdd (id_ "a") (XNumUnsigned 1 U8))]] (nm "main").
+
+Example hyps_satisfiable : forallb all_hyps [P_loop; P_ops; P_const; P_all] = true.
+Proof. vm_compute. reflexivity. Qed.
+
+(* the order hypothesis is needed: the checker accepts a struct pattern that names the fields out of
+   definition order and binds a variable twice (never produced by the parser, which sorts the fields);
+   TSemSafe.ok_pat refuses it *)
+Definition P_unsorted := mkUProgram [] [s_P] []
+  [main_fn [px "x" u8] u8
+     [XSLet (pid "p") None (XStructLiteral (nm "P") [(nm "a", id_ "x"); (nm "b", XTrue)]);
+      XSLet (ParseExpr.PStruct (nm "P") [(nm "b", pid "q"); (nm "a", pid "q")]) None (id_ "p");
+      XSExpr (id_ "q")]] (nm "main").
+Example unsorted_struct_pattern :
+  in_sound_fragment P_unsorted = true /\ sp_program P_unsorted = false /\
+  match check_program ex_intern 50 P_unsorted with
+  | COk P' => tys_program P' = true /\ Wt.wt_program P' = true /\ TSemSafe.safe_program_ok P' = false
+  | _ => False
+  end.
+Proof. vm_compute. repeat split; reflexivity. Qed.
+End SafeExamples.
